@@ -29,6 +29,8 @@ def run(ctx):
     else:
         closure(ctx, exe, "s2w1u1", 2, 1, 1, True, stray, props)
         closure(ctx, exe, "s3w2u2", 3, 2, 2, not stray, stray, props)
+        # objects set up with the CSTL_*_INITIALIZER macros instead of the init functions: same closure, same model
+        closure(ctx, build(ctx, "drv_ptr_macro", "drv_ptr.c", LIB, wrap=WRAP, defs=["USE_INITIALIZER"]), "s2w1u1-macro", 2, 1, 1, True, stray, props)
         n, steps = (4, 3, 3), 30000
     impl_phase(ctx, "rand", exe, ["random", ctx.seed, steps, 2], [n[0], n[1], n[2], 1, 0], "TracePtr", "", consts(*n), props)
     if stray:
